@@ -916,10 +916,15 @@ def finV (opts : Opts) : Value → R Value   -- (`Value.set` in the result: a Py
     pure (list r)
   | Value.set l => do
     if overLimit opts l.length then .error .tooLarge
-    let r ← finL opts l
-    -- with `convertSetsToLists` the result is the LIST of the members in the set's iteration order, which the model does
-    -- not know: `Value.set` stands for it as well (the comparison decides list / set from the options)
-    if opts.setsToLists || outHashableL r then pure (Value.set r) else .error .type
+    -- the members are converted (and, for a Python set, hashed) one by one in the set's iteration order, which the model
+    -- does not know: when they fail in different ways only "raises" is predicted
+    match finSetErrs opts l with
+    | e :: rest => if rest.all (· == e) then .error e else .error .sortMixed
+    | [] => do
+      let r ← finL opts l
+      -- with `convertSetsToLists` the result is the LIST of the members in that order: `Value.set` stands for it as well
+      -- (the comparison decides list / set from the options)
+      pure (Value.set r)
   | dict d => do
     if overLimit opts d.length then .error .tooLarge
     let r ← finP opts d
@@ -928,6 +933,13 @@ def finV (opts : Opts) : Value → R Value   -- (`Value.set` in the result: a Py
 def finL (opts : Opts) : List Value → R (List Value)
   | [] => pure []
   | x :: xs => do let x' ← finV opts x; let r ← finL opts xs; pure (x' :: r)
+/-- how the members of a set fail to be finalised (conversion, then - for a Python set - hashing) -/
+def finSetErrs (opts : Opts) : List Value → List Err
+  | [] => []
+  | x :: xs =>
+    (match finV opts x with
+     | .error e => [e]
+     | .ok v => if !opts.setsToLists && !outHashable v then [.type] else []) ++ finSetErrs opts xs
 /-- a lazily limited generator: the element after the `k`-th raises -/
 def finLim (opts : Opts) : Nat → List Value → R (List Value)
   | _, [] => pure []
@@ -1023,8 +1035,12 @@ def reduceWith (opts : Opts) (f : Value → Value → R Value) (seed : Option Va
 /-- `value in collection` -/
 def memberOf (opts : Opts) (o : Obj) (v : Value) (err : Err) : R Obj :=
   match o with
-  | .val (Value.set l) | .dset l => if hashable v then .ok (.val (bool (sMem l v))) else .error .type
-  | .view .keys d => if hashable v then .ok (.val (bool (dHas d v))) else .error .type
+  | .val (Value.set l) | .dset l => do
+    let _ ← limitSized opts l
+    if hashable v then .ok (.val (bool (sMem l v))) else .error .type
+  | .view .keys d => do
+    let _ ← limitSized opts (dictKeys d)
+    if hashable v then .ok (.val (bool (dHas d v))) else .error .type
   | .view .items _ => .error .outOfDomain
   | o =>
     match o.iterable? opts true with
@@ -1092,6 +1108,16 @@ def generateManyM (producer : Lam) (sel : Option Lam) (decycle depthFirst : Bool
                   (if decycle then item :: past else past)
                 ⟨out :: t.items, t.err⟩
 
+mutual
+/-- is a collection nested in the value longer than `n`? -/
+def overNested (n : Nat) : Value → Bool
+  | tuple l | list l | Value.set l | iter l => l.length > n || overNestedL n l
+  | _ => false
+def overNestedL (n : Nat) : List Value → Bool
+  | [] => false
+  | x :: xs => overNested n x || overNestedL n xs
+end
+
 def intArgs : VL → Option (List Int)
   | [] => some []
   | int i :: r => (intArgs r).map (i :: ·)
@@ -1126,8 +1152,7 @@ def runOp1 (opts : Opts) (op : Op) (o : Obj) : R Obj :=
     match o with
     | .val (tuple l) | .val (list l) | .val (Value.set l) | .dset l => .ok (.val (int l.length))
     | .val (dict d) | .view .keys d | .view .items d => .ok (.val (int d.length))
-    | .val (iter l) => .ok (.val (int l.length))
-    | .lazy s => do let xs ← s.toList; pure (.val (int xs.length))
+    | .val (iter _) | .lazy _ => do let s ← o.it opts; let xs ← s.toList; pure (.val (int xs.length))   -- (the `Iterator()` overload)
     | .val (str _) => .error .outOfDomain
     | _ => .error .noMethod
   | .count => do let s ← o.it opts false; let xs ← s.toList; pure (.val (int xs.length))
@@ -1263,7 +1288,11 @@ def runOp1 (opts : Opts) (op : Op) (o : Obj) : R Obj :=
       let lmF (a b : Value) : R Value := match lm with
         | some l => l.eval a b
         | none => match a, b with
-          | tuple x, tuple y => if (x ++ y).all hashable then .ok (tuple (distinct (x ++ y))) else .error .type
+          | tuple x, tuple y =>
+            -- `toList(distinct(lst1 + lst2))`: the distinct members are pulled through the limiter of `toList`
+            if !(x ++ y).all hashable then (if opts.limit.isSome then .error .outOfDomain else .error .type)
+            else if overLimit opts (distinct (x ++ y)).length then .error .tooLarge
+            else .ok (tuple (distinct (x ++ y)))
           | _, _ => .error .outOfDomain
       let imF (a b : Value) : R Value := match im with | some l => l.eval a b | none => .ok b
       -- a nested merge leaves plain (unhashable) dicts inside the result: the model does not track those
@@ -1294,17 +1323,21 @@ def runOp1 (opts : Opts) (op : Op) (o : Obj) : R Obj :=
   | .generateManyTake producer sel decycle depthFirst n =>
     match o with
     | .val (iter _) | .lazy _ | .ordering _ _ | .view _ _ | .dset _ | .mdict _ | .opaque _ => .error .outOfDomain
-    | .val v => if n < 0 then .error .value else pure (.lazy (generateManyM producer sel decycle depthFirst 400 n.toNat [v] []))
+    | .val v =>
+      if opts.limit.isSome then .error .outOfDomain     -- (what the producer returns passes the limiter: not followed)
+      else if n < 0 then .error .value else pure (.lazy (generateManyM producer sel decycle depthFirst 400 n.toNat [v] []))
   -- collections.py
   | .listFn =>
     match o with
-    | .val (iter l) => .ok (.val (tuple (list_ [iter l])))
-    | .lazy s => do let xs ← s.toList; pure (.val (tuple xs))
+    | .val (iter l) => do let s ← o.it opts; let _ ← s.toList; pure (.val (tuple (list_ [iter l])))
+    | .lazy _ => do let s ← o.it opts; let xs ← s.toList; pure (.val (tuple xs))
     | .val v => .ok (.val (tuple [v]))
     | .dset l => if l.length > 1 then .error .outOfDomain else .ok (.val (tuple [Value.set l]))   -- (embedding it loses "order unknown")
     | .ordering _ _ | .view _ _ | .mdict _ | .opaque _ => .error .outOfDomain
   | .flatten => do
     let s ← o.it opts
+    -- every nested collection passes the limiter when it is reached: not followed
+    if (match opts.limit with | some n => overNestedL n s.items | none => false) then .error .outOfDomain
     -- nested iterables are finished data here, so only the source can fail, at its end
     pure (.lazy (s.lift flatten))
   | .toList => do let s ← o.it opts; let xs ← s.toList; pure (.val (tuple xs))
@@ -1385,9 +1418,10 @@ def runOp1 (opts : Opts) (op : Op) (o : Obj) : R Obj :=
     | o => .error (badReceiver o)
   | .plusRight r =>
     match o, r with
-    | .val (tuple a), tuple b => .ok (.val (tuple (a ++ b)))
+    | .val (tuple a), tuple b => do let _ ← limitSized opts a; let _ ← limitSized opts b; pure (.val (tuple (a ++ b)))
     | .val (dict a), dict b => .ok (.val (dict (combineDicts a b)))
-    | .val (Value.set a), Value.set b | .dset a, Value.set b => .ok (.dset (sUnion a b))
+    | .val (Value.set a), Value.set b | .dset a, Value.set b => do
+      let _ ← limitSized opts a; let _ ← limitSized opts b; pure (.dset (sUnion a b))
     | .val (int a), int b => .ok (.val (int (a + b)))
     | .val (flt a), int b => do let v ← plus (flt a) (int b); pure (.val v)
     | .val (int a), flt b => do let v ← plus (int a) (flt b); pure (.val v)
@@ -1405,9 +1439,10 @@ def runOp1 (opts : Opts) (op : Op) (o : Obj) : R Obj :=
       | none => .error .noFunction
   | .plusLeft l =>
     match l, o with
-    | tuple a, .val (tuple b) => .ok (.val (tuple (a ++ b)))
+    | tuple a, .val (tuple b) => do let _ ← limitSized opts a; let _ ← limitSized opts b; pure (.val (tuple (a ++ b)))
     | dict a, .val (dict b) => .ok (.val (dict (combineDicts a b)))
-    | Value.set a, .val (Value.set b) | Value.set a, .dset b => .ok (.dset (sUnion a b))
+    | Value.set a, .val (Value.set b) | Value.set a, .dset b => do
+      let _ ← limitSized opts a; let _ ← limitSized opts b; pure (.dset (sUnion a b))
     | int a, .val (int b) => .ok (.val (int (a + b)))
     | flt a, .val (int b) => do let v ← plus (flt a) (int b); pure (.val v)
     | int a, .val (flt b) => do let v ← plus (int a) (flt b); pure (.val v)
@@ -1468,8 +1503,11 @@ def runOp1 (opts : Opts) (op : Op) (o : Obj) : R Obj :=
     else pure (.lazy (s.thenList vals))
   | .setFn =>
     match o with
-    | .val (iter l) => if l.all hashable then .ok (.dset (setOf [iter l])) else .error .type
-    | .lazy s => do let xs ← hashAll s; pure (.dset (sOfList xs))
+    | .val (iter l) => do
+      let s ← o.it opts
+      if s.err.isSome then do let xs ← hashAll s; pure (.dset (sOfList xs))
+      else if l.all hashable then .ok (.dset (setOf [iter l])) else .error .type
+    | .lazy _ => do let s ← o.it opts; let xs ← hashAll s; pure (.dset (sOfList xs))
     | .val v => if hashable v then .ok (.dset [v]) else .error .type
     | .dset l => if l.length > 1 then .error .outOfDomain else .ok (.dset [Value.set l])
     | .ordering _ _ | .view _ _ | .mdict _ | .opaque _ => .error .outOfDomain
@@ -1603,6 +1641,15 @@ def Obj.holdsDict : Obj → Bool
   | .dset l => holdsDictL l
   | .lazy s | .ordering s _ => holdsDictL s.items
 
+/-- the collections among the arguments (parameters declared `Iterable()`): each passes the limiter when the call is made -/
+def Op.collArgs : Op → List VL
+  | .concat colls | .zip colls | .zipLongest colls _ => colls
+  | .join other _ _ => [other]
+  | .defaultIfEmpty d => [d]
+  | .deleteAll ks => [ks]
+  | .insertMany _ vals | .replaceMany _ vals _ => [vals]
+  | _ => []
+
 /-- `memorize` / `defaultIfEmpty` return a sized receiver itself -/
 def Op.handsBack : Op → Bool
   | .memorize | .defaultIfEmpty _ => true
@@ -1624,12 +1671,30 @@ def Op.argsHoldDict : Op → Bool
   | .join other _ _ => holdsDictL other
   | _ => false
 
+/-- the values the object's elements are made of -/
+def Obj.parts : Obj → VL
+  | .val (dict d) | .mdict d | .view _ d => dictValues d ++ dictKeys d
+  | .val (tuple l) | .val (list l) | .val (Value.set l) | .val (iter l) | .dset l => l
+  | .val _ | .opaque _ => []
+  | .lazy s | .ordering s _ => s.items
+
+/-- a non-empty collection among the arguments the operation hands to `+` -/
+def Op.argsHoldColl : Op → Bool
+  | .sum (some v) | .aggregate _ (some v) | .accumulate _ (some v) => overNested 0 v
+  | .mergeWith other _ _ _ => overNestedL 0 (dictValues other)
+  | .join other _ _ => overNestedL 0 other
+  | _ => false
+
 def runOp (opts : Opts) (op : Op) (o : Obj) : R Obj := do
   if o.carriesLazy && !op.linear then .error .outOfDomain
+  -- under `yaql.limitIterators` the operands of `+` pass the limiter: `plus` does not follow that (collections added up)
+  -- ... and so do the receivers of collection methods inside a lambda (`Lam.evalR` does not follow that either)
+  if opts.limit.isSome && (op.usesPlus || op.lamSeqMethods) && !(match op with | .mergeWith _ none none _ => true | _ => false)
+      && (overNestedL 0 o.parts || op.argsHoldColl) then .error .outOfDomain
   -- under `yaql.iterableDicts` a collection method inside a lambda, and `+`, accept a dictionary: `Lam.evalR` / `plus` do
   -- not follow that
   if opts.iterableDicts && (op.lamSeqMethods || op.usesPlus) && (o.holdsDict || op.argsHoldDict) then .error .outOfDomain
-  let r ← match o with
+  let r : R Obj := match o with
     | .opaque _ => .error .outOfDomain
     | .mdict d =>
       match op with
@@ -1637,6 +1702,10 @@ def runOp (opts : Opts) (op : Op) (o : Obj) : R Obj := do
       | .listLit _ | .listFn | .repeatTake _ _ | .generate _ _ _ _ _ | .generateManyTake _ _ _ _ _ => .error .outOfDomain   -- (embedding it loses the distinction)
       | op => runOp1 opts op (.val (dict d))
     | o => runOp1 opts op o
+  -- the arguments are converted (and limited) once an overload has accepted the receiver, before the function runs
+  let r ← (match r with
+    | .error .noMethod | .error .noFunction | .error .unknownFunction | .error .ambiguous | .error .outOfDomain => r
+    | r => if op.collArgs.any (fun l => overLimit opts l.length) then .error .tooLarge else r : R Obj)
   match r with
   | .val (dict d) =>
     pure (if mutableResult op || (op.handsBack && (match o with | .mdict _ => true | _ => false)) then .mdict d else r)
@@ -1657,6 +1726,9 @@ def rootItems (binder : Option Op) (data : Value) : Option VL :=
 
 /-- operations that iterate the root `$` again -/
 def runOpR (opts : Opts) (root : Option VL) (op : Op) (o : Obj) : R Obj :=
+  if (match op with | .zipRoot _ | .joinRoot _ _ | .concatRoot _ | .partialThenFull _ => true | _ => false) && opts.limit.isSome
+  then .error .outOfDomain      -- (a second consumer of `$` under `yaql.limitIterators`: not followed)
+  else
   match op with
   | .zipRoot skips =>
     match root with
